@@ -59,6 +59,8 @@ def run_flat(rep, tier, seed, selftest, cfg):
             r.wall += r1.wall
     model_ok = r.ok
     cases = r.cases
+    if "prepare" in cfg:
+        cases = [cfg["prepare"](c) for c in cases]
     if not cases:
         raise common.ToolError("TLC emitted no cases")
     # ---- 2. replay every case on the real compiler ------------------------------
@@ -95,6 +97,10 @@ def run_flat(rep, tier, seed, selftest, cfg):
         flipped = dict(cases[len(cases) // 2])
         flipped["ok"] = not flipped["ok"]
         selftests["flipped_verdict_detected"] = bool(cfg["compare"](flipped, observations[len(cases) // 2]))
+    if selftest and "vacuity" in cfg:
+        vm, vc, vinv = cfg["vacuity"]
+        rv = common.tlc(vm, vc, workers=4, timeout=600, tag="%s-vacuity" % prop)
+        selftests["defective_model_violates_" + vinv] = (rv.violated == vinv)
     # ---- 3. trace validation of random larger bodies ----------------------------
     count = cfg["record_count"][tier]
     chunks = max(1, min(12, count // 150))
